@@ -136,13 +136,19 @@ Theorem C20_canonical_text_is_physical : forall root cwd s,
 Proof. exact pc_text_canonical_physical. Qed.
 Print Assumptions C20_canonical_text_is_physical.
 
-(* "percent-encoded": every byte string f is deliverable as the `file` value,
-   so the theorems above, which range over all raw query strings, cover every
-   name an attacker can choose. *)
+(* "percent-encoded": for every byte string f, `file=` + (every byte as %XY)
+   delivers the lossy UTF-8 reading of f to the decision - f itself when f is
+   UTF-8, in particular when it is ASCII - so the theorems above, which range
+   over all raw query strings, cover every name an attacker can choose; a name
+   that is not UTF-8 cannot be chosen (it arrives with U+FFFD in it). *)
 Theorem C20_every_name_expressible : forall f, Forall (fun b => b < 256) f ->
-  pc_get_file (Some (pc_file_kw ++ 61 :: pc_enc f)) = PExact f.
+  pc_get_file (Some (pc_file_kw ++ 61 :: pc_enc f)) = PExact (pc_utf8_lossy f).
 Proof. exact pc_get_file_enc. Qed.
 Print Assumptions C20_every_name_expressible.
+
+Theorem C20_ascii_is_utf8 : forall s, Forall (fun b => b < 128) s -> pc_is_utf8 s.
+Proof. exact pc_utf8_lossy_ascii. Qed.
+Print Assumptions C20_ascii_is_utf8.
 
 (* non-vacuity: a tree with a link that stays inside and one that escapes *)
 Definition c20_b (s : string) : list N := map N_of_ascii (list_ascii_of_string s).
@@ -337,3 +343,46 @@ Example C20_history_example :
     = PDir [(c20_b "day1", PDir [(c20_b "one.mrt", PFile)]); (c20_b "day2", PDir [(c20_b "two.mrt", PFile)]);
             (c20_b "current", PLink (c20_b "day2"))].
 Proof. split; [repeat constructor|]. vm_compute. repeat split; reflexivity. Qed.
+
+(* ================================================================ names that are not UTF-8
+   Every theorem above is about trees whose names are arbitrary octet strings
+   ([pc_name] = list N; what a file system refuses - '/', NUL, "", ".", ".." -
+   is [pc_name_valid]); none of them asks for UTF-8. What IS always UTF-8 is the
+   requested name ([pc_form_decode] ends with the lossy conversion). So a file
+   whose name is not UTF-8 is reached through a link with a name that can be
+   asked for, or because update_path resolves to a directory with such a name. *)
+Theorem C20_non_utf8_target_is_answered : forall cwd api s pre rq post d f dir k c,
+  pc_to_queue api rq ->
+  snd (pc_after s pre) = Some d ->
+  pc_get_file (rq_query rq) = PExact f -> pc_is_abs f = false ->
+  pc_canon (fst (pc_after s pre)) cwd d = inr dir ->
+  pc_canon (fst (pc_after s pre)) cwd (pc_push (pc_render dir) f) = inr (dir ++ k) ->
+  In c (dir ++ k) -> ~ pc_is_utf8 c ->
+  nth_error (pc_run cwd api s (pre ++ EReq rq :: post)) (pc_requests pre) =
+    Some (Some (pc_status (rq_mode rq), [dir ++ k])) /\
+  (exists a b, pc_entry_text (dir ++ k) = a ++ c_slash :: c ++ b) /\
+  pc_shown (dir ++ k) = pc_utf8_lossy (pc_entry_text (dir ++ k)).
+Proof. exact pc_non_utf8_target_answered. Qed.
+Print Assumptions C20_non_utf8_target_is_answered.
+
+(* non-vacuity: /upd/updates.<E9>.mrt (Latin-1), /upd/latest.mrt -> updates.<E9>.mrt, /d<FF> a directory with
+   /d<FF>/x.mrt, /ulnk -> d<FF>. The link is answered 200 and the octets are enqueued; the name itself, asked
+   for as %E9, arrives as U+FFFD and is not found; an update_path that resolves to d<FF> serves x.mrt; what is
+   shown of the Latin-1 entry has EF BF BD where E9 stands in what is enqueued. *)
+Local Open Scope string_scope.
+Example C20_non_utf8_example :
+  let e9 := (c20_b "updates." ++ [233] ++ c20_b ".mrt")%list in
+  let dff := [100; 255] in
+  let fs := PDir [(c20_b "upd", PDir [(e9, PFile); (c20_b "latest.mrt", PLink e9)]);
+                  (dff, PDir [(c20_b "x.mrt", PFile)]); (c20_b "ulnk", PLink dff)] in
+  let rq q := MkReq true (c20_b "/mrt/u/queue") (Some (c20_b q)) MOk in
+  let run u q := pc_handle fs [] (c20_b "/mrt/u/") (Some (c20_b u)) (rq q) in
+  ~ pc_is_utf8 e9 /\ ~ pc_is_utf8 dff /\
+  run "/upd" "file=latest.mrt" = Some (200, [[c20_b "upd"; e9]]) /\
+  run "/upd" "file=updates.%E9.mrt" = Some (400, []) /\
+  pc_get_file (Some (c20_b "file=updates.%E9.mrt")) = PExact (c20_b "updates." ++ [239; 191; 189] ++ c20_b ".mrt")%list /\
+  run "/ulnk" "file=x.mrt" = Some (200, [[dff; c20_b "x.mrt"]]) /\
+  pc_observe fs [] [c20_b "upd"; e9] = (inr [c20_b "upd"; e9], true) /\
+  pc_entry_text [c20_b "upd"; e9] = (c20_b "/upd/updates." ++ [233] ++ c20_b ".mrt")%list /\
+  pc_shown [c20_b "upd"; e9] = (c20_b "/upd/updates." ++ [239; 191; 189] ++ c20_b ".mrt")%list.
+Proof. vm_compute. repeat split; try reflexivity; intro H; discriminate H. Qed.
